@@ -149,10 +149,28 @@ def o84(ctx):
         df = me.attrs["df"]
         check_schema(ctx, qd, df, md, fd, "drop_duplicates")
         notes = [n for n in df.notes if n[0] in ("sort_values", "drop_duplicates")]
-        ctx.count(1, {"drop_duplicates history": [str(n)[:80] for n in notes]})
-        ok = len(notes) == 2 and notes[0][0] == "sort_values" and notes[0][1] == T("vec", sym("dup"), sym("dec")) \
-            and notes[0][2] == T("vec", const(True), const(asc)) and notes[1][0] == "drop_duplicates" and notes[1][1] == sym("dup") \
-            and tm.cval(notes[1][2]) == "first"
+        ctx.count(1, {"drop_duplicates history": [str(n)[:80] for n in notes], "row filters": [tm.show(x)[:80] for x in df.filters]})
+        # effective lexicographic order of the rows: a multi-key sort is stable; a later stable sort refines on top of the order it
+        # finds, a later unstable one forgets it.  (one two-key sort == decision sort followed by a stable id sort)
+        keys = []
+        for n in (n for n in notes if n[0] == "sort_values"):
+            by_ = list(n[1].args) if n[1].op == "vec" else [n[1]]
+            asc_ = list(n[2].args) if n[2].op == "vec" else [n[2]] * len(by_)
+            stable = len(by_) > 1 or tm.cval(n[3]) in ("stable", "mergesort")
+            keys = list(zip(by_, [tm.cval(a_) for a_ in asc_])) + (keys if stable else [])
+        # the first row per id: drop_duplicates(subset=id) or the complement of duplicated(subset=id, keep='first') taken on the sorted rows
+        dd = [(n[1], tm.cval(n[2])) for n in notes if n[0] == "drop_duplicates"]
+        for f_ in df.filters:
+            if f_.op == "not" and f_.args[0].op == "call" and f_.args[0].args[0] == "duplicated" and len(f_.args[0].args) == 4:
+                dd.append((f_.args[0].args[2], tm.cval(f_.args[0].args[3])))
+            else:
+                dd.append((None, None))
+        chain, s_ = [], df.space
+        while s_ is not None:
+            chain.append(s_.how)
+            s_ = s_.parent
+        sorted_then_filtered = len(chain) >= 3 and chain[0] == "filter" and chain[-1] == "root" and all(h_ == "sort" for h_ in chain[1:-1])
+        ok = keys[:2] == [(sym("dup"), True), (sym("dec"), asc)] and dd == [(sym("dup"), "first")] and sorted_then_filtered
         if not ok or df.written:
             ctx.finding(qd, fd, f"de-duplication must sort by (id ascending, decision {'ascending' if asc else 'descending'}) and keep the "
                         "first row per id, changing no field", fd, md, history=[str(n)[:100] for n in notes])
